@@ -245,16 +245,16 @@ Lemma payload_step_accepted : forall legacy line open n, node_ok n -> accepted (
 Proof.
   intros legacy line open n Hn A. destruct n as [s| |attrs|]; cbn [payload_step fst snd].
   - apply (accepted_app (stk open) (stk open)); [exact A|].
-    apply (accepts_app _ (stk open)); [apply accepts_text; exact Hn|]. destruct legacy; [apply accepts_space|apply accepts_nil].
+    apply accepts_text; exact Hn.
   - apply (accepted_app (stk open) (stk open)); [apply rstrip_accepted; exact A|apply accepts_br].
   - destruct (span_attrs attrs) as [|c0 t0] eqn:E; cbn [fst snd]; [exact A|].
     rewrite <- E. clear E c0 t0.
-    assert (Cl : accepted [] (if open then rstrip line ++ close_span else line)).
-    { destruct open; [|exact A]. apply (accepted_app [span_name] []); [apply rstrip_accepted; exact A|apply accepts_close_span]. }
+    assert (Cl : accepted [] (if open then line ++ close_span else line)).
+    { destruct open; [|exact A]. apply (accepted_app [span_name] []); [exact A|apply accepts_close_span]. }
     change (stk true) with [span_name].
     apply (accepted_app [] [span_name]); [exact Cl|apply accepts_open_span; exact Hn].
   - destruct open; cbn [fst snd]; [|exact A].
-    apply (accepted_app [span_name] []); [apply rstrip_accepted; exact A|apply accepts_close_span].
+    apply (accepted_app [span_name] []); [exact A|apply accepts_close_span].
 Qed.
 
 Lemma payload_fold_accepted : forall legacy nodes line open, Forall node_ok nodes -> accepted (stk open) line ->
@@ -333,7 +333,7 @@ Proof.
   destruct (lookup (lit "class") content) as [c|] eqn:E1;
   [destruct (existsb (str_eqb c) ids)|];
   destruct (lookup (lit "text-align") content) as [v2|] eqn:E2;
-  destruct (lookup (lit "italics") content) as [v3|] eqn:E3;
+  destruct (lookup (lit "italics") content) as [[|v3a v3]|] eqn:E3;
   destruct (lookup (lit "font-family") content) as [v4|] eqn:E4;
   destruct (lookup (lit "font-size") content) as [v5|] eqn:E5;
   destruct (lookup (lit "color") content) as [v6|] eqn:E6;
